@@ -147,8 +147,8 @@ impl PartitionReplicatorActor {
             self.buffered_writes.queue.map.first_key_value()
         {
             let from_seq = *self.buffered_writes.next();
-            let to_seq = oldest_buffered_seq - 1;
-            let gap_size = oldest_buffered_seq - from_seq;
+            let to_seq = oldest_buffered_seq.saturating_sub(1);
+            let gap_size = oldest_buffered_seq.saturating_sub(from_seq);
             let wait_time = oldest_write
                 .reply_senders
                 .first()
@@ -314,6 +314,18 @@ impl PartitionReplicatorActor {
                 );
                 self.buffered_writes
                     .progress_to(append.last_partition_sequence + 1);
+
+                // Writes buffered for a sequence inside the range just applied can never become
+                // the next write: answer them now instead of leaving them below `next` forever
+                while let Some(entry) = self.buffered_writes.queue.map.first_entry() {
+                    if *entry.key() > append.last_partition_sequence {
+                        break;
+                    }
+                    for reply in entry.remove().reply_senders {
+                        reply.tx.send(Err(WriteError::StaleWrite));
+                    }
+                }
+                self.buffered_writes.update_timeout();
 
                 // Buffer events for potential broadcast when confirmed
                 // Convert partition sequences to 1-indexed versions for the confirmation system
